@@ -53,7 +53,7 @@ func rjTerm(v interface{}) string {
 		for k := range x {
 			keys = append(keys, k)
 		}
-		sortStrings(keys)
+		c04SortStrings(keys)
 		items := make([]string, len(keys))
 		for i, k := range keys {
 			items[i] = emit.Pair(emit.Str(k), rjTerm(x[k]))
@@ -63,7 +63,7 @@ func rjTerm(v interface{}) string {
 	return "RNull"
 }
 
-func sortStrings(s []string) {
+func c04SortStrings(s []string) {
 	for i := 1; i < len(s); i++ {
 		for j := i; j > 0 && s[j] < s[j-1]; j-- {
 			s[j], s[j-1] = s[j-1], s[j]
